@@ -15,8 +15,9 @@ from engines import storage as S
 from engines import recplay as R
 
 PROP = 'C15'
-PREFIXES = ['', 'a', 'ab', 'a/b', 'b']
-FOREIGN = ['other/x', 'tape_recorder_recordingsX/full/OpA/20200101/1', 'tape_recorder_recordings/a_foreign', 'tape_recorder_recordings/abc/full/OpA/20200101/1',
+PREFIXES = ['', 'a', 'ab', 'a/b', 'b', 'full_runs', 'metadata_v2', 'a/full_runs']
+FOREIGN = ['tape_recorder_recordings/fullx/full/OpA/20200101/9', 'tape_recorder_recordings/metadata-old/metadata/OpA/20200101/9',
+           'tape_recorder_recordings/a/fullness/x', 'other/x', 'tape_recorder_recordingsX/full/OpA/20200101/1', 'tape_recorder_recordings/a_foreign', 'tape_recorder_recordings/abc/full/OpA/20200101/1',
            'tape_recorder_recordings', 'zzz']
 
 META = {
@@ -114,6 +115,8 @@ def _run(tape, clock):
     saved = {}            # (prefix, id) -> (data, metadata) of completed saves
     pending = {}
     attempted = []
+    failed_saves = []
+    current_save = None
     open_recs = dict((c['name'], []) for c in cass)
     if fault_mode == 1:
         world.crash_after = k
@@ -138,7 +141,9 @@ def _run(tape, clock):
     try:
         for n in range(nops):
             c = tape.choice(cass)
-            op = tape.weighted([(3, 'create'), (4, 'save'), (2, 'get'), (2, 'list'), (1, 'close'), (1, 'with_exit'), (2, 'get_metadata')])
+            op = tape.weighted([(3, 'create'), (4, 'save'), (2, 'get'), (2, 'list'), (1, 'close'), (1, 'with_exit'), (2, 'get_metadata'), (2, 'retry_save')])
+            if op == 'retry_save' and not failed_saves:
+                op = 'save'
             before = world.snapshot().get('bkt', {})
             nlog = len(world.log)
             label = '%s.%s' % (c['name'], op)
@@ -164,9 +169,13 @@ def _run(tape, clock):
                         r, data, md = open_recs[donors[0]['name']].pop(0)
                     pending = {(c['prefix'], r.id): (data, md)}
                     attempted.append((c['prefix'], r.id))
+                    current_save = (c, r, data, md)
                     c['obj'].save_recording(r)
                     saved[(c['prefix'], r.id)] = (data, md)
                     pending = {}
+                    if tape.draw(6) == 5:
+                        failed_saves.append(current_save)      # (a later retry_save saves it once more, unchanged)
+                    current_save = None
                 elif op == 'get':
                     ids = [rid for (p, rid) in saved if p == c['prefix']]
                     if ids:
@@ -176,6 +185,17 @@ def _run(tape, clock):
                             c['obj'].get_recording('OpA/20200101/nothing')
                         except Exception:
                             pass
+                elif op == 'retry_save':
+                    # the caller retries a save that failed (or saves the same recording again)
+                    run.probe('save_retried')
+                    c2, r, data, md = failed_saves.pop(0)
+                    c = c2
+                    label = '%s.%s' % (c['name'], op)
+                    pending = {(c['prefix'], r.id): (data, md)}
+                    attempted.append((c['prefix'], r.id))
+                    c['obj'].save_recording(r)
+                    saved[(c['prefix'], r.id)] = (data, md)
+                    pending = {}
                 elif op == 'get_metadata':
                     # any id this prefix ever tried to save, including saves that stopped half-way
                     ids = sorted(set(rid for (p, rid) in list(saved) + attempted if p == c['prefix']))
@@ -202,6 +222,9 @@ def _run(tape, clock):
                 run.probe('put_failed')
                 run.fault('put_raises')
                 pending = {}
+                if current_save is not None and not c['read_only']:
+                    failed_saves.append(current_save)
+                current_save = None
             ops_log.append((label, outcome))
             run.say('%s -> %s' % (label, outcome))
             after = world.snapshot().get('bkt', {})
